@@ -28,7 +28,7 @@
 (* exception propagates and the object is left consistent -- unchanged or,  *)
 (* for reads, a line-prefix / the new collection.  With IOEnv.DEVQ = "1"    *)
 (* (open finding C20-qread-nonatomic only) a qread_fail may also leave the  *)
-(* new db with the old rdb (named deviation QReadBindsDbFirst, marker 2).   *)
+(* new db with the old rdb (NonAtomicQread behaviour, marker 2).          *)
 (* Batched: <<"ACCEPTED", tid>> for every trace explained completely.      *)
 (***************************************************************************)
 EXTENDS Debtags, IOUtils, TLCExt
